@@ -76,15 +76,30 @@ def run(rep, tier, seed):
                         "the expat projection and the runner are trusted"]
     recs = geom.run_geom_family(rep, "solve", tier, ["SolveIdentity"])
     nvar = 4 if tier == "quick" else 8
-    cases = []
-    for j, c in enumerate(recs):
-        for v in range(nvar):
-            r2 = random.Random(rnd.random())
-            a = spell(c, r2, longhand=(v == 0))
-            xml = f'<svg><{c["shape"]} id="s" {a}/></svg>'
-            cases.append({"k": f"c11-{j}-{v}", "xml": xml, "case": {k: c[k] for k in ("shape", "px", "py", "vx", "vy", "dx", "dy", "exp")},
-                          "key": f"{j}-{a}", "grp": j})
     outs = {}
+    # the grid in quarters of a user unit (exact in binary), then in fifths (decimal fractions
+    # that are not: 16.2 - 6.2 is 9.999999 or 10.000001 before it is written as 10)
+    for unit, share in ((0.25, 1), (0.2, 3 if tier == "quick" else 1)):
+        geom.UNIT = unit
+        cases = []
+        for j, c in enumerate(recs):
+            if j % share:
+                continue
+            for v in range(nvar):
+                r2 = random.Random(rnd.random())
+                a = spell(c, r2, longhand=(v == 0))
+                xml = f'<svg><{c["shape"]} id="s" {a}/></svg>'
+                cases.append({"k": f"c11-{unit}-{j}-{v}", "xml": xml, "case": {k: c[k] for k in ("shape", "px", "py", "vx", "vy", "dx", "dy", "exp")},
+                              "key": f"{unit}-{j}-{a}", "grp": (unit, j)})
+        run_unit(rep, cases, outs)
+    geom.UNIT = 0.25
+    rep.notes["rule"] = ("cases enumerated by TLC (Geom.tla SolveCases): shape x box x constraint pair per axis x dx/dy; "
+                         f"{nvar} spellings each, on a grid of quarters and of fifths; distinct = distinct attribute text")
+    rep.notes["exhaustive"] = True
+    rep.bounds["solve"] = {"cases": len(recs), "spellings_per_case": nvar}
+
+
+def run_unit(rep, cases, outs):
 
     def check(c, resp):
         if resp["status"] != "ok":
@@ -102,10 +117,6 @@ def run(rep, tier, seed):
             return ("solve:spelling-differs", f"{first[1]} gives {first[0]} but this spelling gives {native_attrs(el)}")
         return None
     geom.run_and_compare(rep, cases, check, "c11")
-    rep.notes["rule"] = ("cases enumerated by TLC (Geom.tla SolveCases): shape x box x constraint pair per axis x dx/dy; "
-                         f"{nvar} spellings each; distinct = distinct attribute text")
-    rep.notes["exhaustive"] = True
-    rep.bounds["solve"] = {"cases": len(recs), "spellings_per_case": nvar}
 
 
 def replay(path):
